@@ -4,6 +4,8 @@ import (
 	"github.com/hashicorp/golang-lru/v2/expirable"
 
 	"github.com/lindb/lindb/index/model"
+	"github.com/lindb/lindb/kv"
+	"github.com/lindb/lindb/kv/table"
 	"github.com/lindb/lindb/kv/version"
 	"github.com/lindb/lindb/pkg/imap"
 )
@@ -69,3 +71,140 @@ func verifC09Reach() {
 	verifObserve("ids", k[0], k[1], id, isNew, id2)
 	verifAssert(k[0] != 'q', "reach")
 }
+
+// ---- flush: a kv family stand-in that really persists what the real index flusher writes
+// (trie buckets through the real v1.IndexKVFlusher / model.TrieBucketBuilder) and serves it to the
+// real v1.IndexKVReader through snapshots.
+
+type verifKVFamily struct {
+	kv.Family
+	persisted map[uint32][][]byte // bucket -> flushed trie buckets, in commit order
+}
+
+type verifKVSnapshot struct {
+	version.Snapshot
+	data map[uint32][][]byte
+}
+
+func (s *verifKVSnapshot) Load(key uint32, loader func(value []byte) error) error {
+	for _, v := range s.data[key] {
+		if err := loader(v); err != nil {
+			return err
+		}
+	}
+	return nil
+}
+func (s *verifKVSnapshot) Close() {}
+
+func (f *verifKVFamily) GetSnapshot() version.Snapshot {
+	data := map[uint32][][]byte{}
+	for k, v := range f.persisted {
+		data[k] = append([][]byte{}, v...)
+	}
+	return &verifKVSnapshot{data: data}
+}
+
+type verifKVFlusher struct {
+	kv.Flusher
+	fam     *verifKVFamily
+	pending map[uint32][]byte
+	w       *verifStreamWriter
+}
+
+type verifStreamWriter struct {
+	table.StreamWriter
+	fl  *verifKVFlusher
+	key uint32
+	buf []byte
+}
+
+func (w *verifStreamWriter) Prepare(key uint32) { w.key = key; w.buf = nil }
+func (w *verifStreamWriter) Write(p []byte) (int, error) {
+	w.buf = append(w.buf, p...)
+	return len(p), nil
+}
+func (w *verifStreamWriter) Size() uint32 { return uint32(len(w.buf)) }
+func (w *verifStreamWriter) Commit() error {
+	w.fl.pending[w.key] = w.buf
+	return nil
+}
+
+func (f *verifKVFamily) NewFlusher() kv.Flusher {
+	fl := &verifKVFlusher{fam: f, pending: map[uint32][]byte{}}
+	fl.w = &verifStreamWriter{fl: fl}
+	return fl
+}
+func (fl *verifKVFlusher) StreamWriter() (table.StreamWriter, error) { return fl.w, nil }
+func (fl *verifKVFlusher) Commit() error {
+	for k, v := range fl.pending {
+		fl.fam.persisted[k] = append(fl.fam.persisted[k], v)
+	}
+	return nil
+}
+func (fl *verifKVFlusher) Release() {}
+
+// C09 (flush): a name created before the flush keeps its ID for every caller while the flush is
+// prepared, runs and completes - with a concurrent lookup of that name (verifC09FlushLookup) or with
+// another caller creating a different name of the same bucket at the same time (verifC09FlushCreate);
+// afterwards (everything persisted, memory parts gone) the names still have their IDs and asking
+// again creates nothing. The bucket cache is an expiring LRU: its entry may be gone at any time.
+func verifFlush(withLookup, withCreate bool) {
+	fam := &verifKVFamily{persisted: map[uint32][][]byte{}}
+	s := &indexKVStore{
+		family:      fam,
+		snapshot:    fam.GetSnapshot(),
+		mutable:     imap.NewIntMap[map[string]uint32](),
+		bucketCache: expirable.NewLRU[uint32, *model.TrieBucket](8, nil, 0),
+	}
+	next := uint32(0)
+	create := func() (uint32, error) {
+		next++
+		return next, nil
+	}
+	cpu, mem := []byte("cpu"), []byte("mem")
+	if verifChoose("persistedBefore", 2) == 1 {
+		// an earlier flush left a persisted bucket with another name
+		_, _, _ = s.GetOrCreateValue(1, []byte("old"), create)
+		s.PrepareFlush()
+		verifAssert(s.Flush() == nil, "earlier flush")
+	}
+	id0, isNew, err := s.GetOrCreateValue(1, cpu, create)
+	verifAssert(err == nil && isNew, "first create")
+	if verifChoose("cacheEntryExpired", 2) == 1 {
+		s.bucketCache.Remove(1)
+	}
+	idCPU, idMem := id0, uint32(0)
+	var newCPU bool
+	var errF, errA, errB error
+	verifSpawn(func() {
+		s.PrepareFlush()
+		errF = s.Flush()
+	})
+	if withCreate {
+		verifSpawn(func() { idMem, _, errA = s.GetOrCreateValue(1, mem, create) })
+	}
+	if withLookup {
+		verifSpawn(func() { idCPU, newCPU, errB = s.GetOrCreateValue(1, cpu, create) })
+	}
+	verifJoinAll()
+	verifAssert(errF == nil && errA == nil && errB == nil, "flush and lookups succeed")
+	verifAssert(idCPU == id0 && !newCPU, "a name created before the flush keeps its ID while the flush runs")
+	verifAssert(idMem != id0, "two different names never share an ID")
+	// right after the flush (memory part of the flushed names gone, bucket cache as the lookups left it)
+	idNow, newNow, _ := s.GetOrCreateValue(1, cpu, create)
+	verifAssert(idNow == id0 && !newNow, "right after the flush the name still has its ID and nothing is created")
+	// a second flush persists what was created meanwhile; then everything is read from the kv store
+	s.PrepareFlush()
+	verifAssert(s.Flush() == nil, "second flush")
+	id1, isNew1, _ := s.GetOrCreateValue(1, cpu, create)
+	verifAssert(id1 == id0 && !isNew1, "after the flush the name still has its ID and nothing is created")
+	if withCreate {
+		id2, isNew2, _ := s.GetOrCreateValue(1, mem, create)
+		verifAssert(id2 == idMem && !isNew2, "after the flush the second name still has its ID and nothing is created")
+	}
+	verifReach("end")
+}
+
+func verifC09FlushLookup() { verifFlush(true, false) }
+func verifC09FlushCreate() { verifFlush(false, true) }
+func verifC09FlushBoth()   { verifFlush(true, true) }
